@@ -93,9 +93,10 @@ const (
 	FCust               // PI: interface type whose values come from a ParseTypeWith function
 	FCusts              // []PI
 	FParsR              // *PTokR (user production that consumes a token and rewinds with a checkpoint when it does not like it)
+	FParsN              // *PNest (user production that runs another parser over the same token stream)
 )
 
-var fkindNames = []string{"string", "[]string", "bool", "*string", "lexer.Token", "[]lexer.Token", "*P", "[]*P", "P", "[]P", "U", "[]U", "NamedString", "NamedBool", "*bool", "int", "[]int", "int8", "*PTok", "PTok", "[]PTok", "CapStr", "*CapStr", "[]CapStr", "TextStr", "PI", "[]PI", "*PTokR"}
+var fkindNames = []string{"string", "[]string", "bool", "*string", "lexer.Token", "[]lexer.Token", "*P", "[]*P", "P", "[]P", "U", "[]U", "NamedString", "NamedBool", "*bool", "int", "[]int", "int8", "*PTok", "PTok", "[]PTok", "CapStr", "*CapStr", "[]CapStr", "TextStr", "PI", "[]PI", "*PTokR", "*PNest"}
 
 func (k FKind) String() string { return fkindNames[k] }
 
@@ -397,6 +398,38 @@ func (p *PTokR) Parse(lex *lexer.PeekingLexer) error {
 	return nil
 }
 
+// NestInner is the grammar of the parser that PNest embeds: Ident "+" Int "+".
+type NestInner struct {
+	K string `@Ident "+"`
+	V string `@Int "+"`
+}
+
+var nestParser = participle.MustBuild[NestInner](participle.Lexer(LexDef))
+
+// PNest is a user-implemented production that hands the token stream to another parser (a language embedded in
+// the larger grammar): ParseFromLexer with trailing input allowed. It reports "no match" when the inner parser
+// fails without having consumed anything and the inner parser's error otherwise.
+type PNest struct {
+	V *NestInner
+}
+
+// Parse implements participle.Parseable.
+func (p *PNest) Parse(lex *lexer.PeekingLexer) error {
+	before := lex.Cursor()
+	v, err := nestParser.ParseFromLexer(lex, participle.AllowTrailing(true))
+	if err != nil {
+		if lex.Cursor() == before {
+			return participle.NextMatch
+		}
+		return err
+	}
+	p.V = v
+	return nil
+}
+
+// nestLeaves is NestInner's grammar for the reference parser.
+var nestLeaves = []*Expr{Ref("Ident"), Lit("+"), Ref("Int"), Lit("+")}
+
 // PI is an interface type whose values are produced by a function registered with participle.ParseTypeWith
 // (ParsePI); like PTok the function consumes exactly one token.
 type PI interface{}
@@ -470,6 +503,7 @@ var (
 	tPTok    = reflect.TypeOf(PTok{})
 	tPI      = reflect.TypeOf((*PI)(nil)).Elem()
 	tPTokR   = reflect.TypeOf(PTokR{})
+	tPNest   = reflect.TypeOf(PNest{})
 	tCapStr  = reflect.TypeOf(CapStr{})
 	tTextStr = reflect.TypeOf(TextStr{})
 )
@@ -560,6 +594,8 @@ func (g *Grammar) Types() []reflect.Type {
 				ft = tTextStr
 			case FParsR:
 				ft = reflect.PtrTo(tPTokR)
+			case FParsN:
+				ft = reflect.PtrTo(tPNest)
 			case FCust:
 				ft = tPI
 			case FCusts:
